@@ -87,7 +87,9 @@ def run (c : Case) : String :=
         | "Retry" => if p.isEmpty then (parseCancel outs cancelS).map (fun cn => retry ⟨0, false, false⟩ sub cn outs) else none
         | "RetryWithConfig" =>
           match p with
-          | [m, d, rs] => if m < 0 then none else
+          | [m, d, rs] =>
+            -- d = 2: a long delay, only with a cancellation before or during the first attempt
+            if m < 0 || (d == 2 && !(cancelS == "pre" || cancelS.startsWith "a1")) then none else
               (parseCancel outs cancelS).map (fun cn => retry ⟨m.toNat, d != 0, rs != 0⟩ sub cn outs)
           | _ => none
         | "RepeatWith" => (nat1 p).map (fun n => repeatWith n sub cut outs)
@@ -101,6 +103,11 @@ def run (c : Case) : String :=
       | none => s!"res {c.id} unsupported"
       | some r =>
         let r := if mode == Mode.tdrace then { r with log := overlapLog r.attempts } else r
-        s!"res {c.id} trace={renderTrace (deliver cut r.raw)} log={renderLog r.log} attempts={r.attempts} live={maxLive r.log} evals={r.evals}"
+        -- with the long delay the context is cancelled before any delay starts: the delay `select`
+        -- (:199-208) returns at once, the run is prompt
+        let prompt := match op, p with
+          | "RetryWithConfig", [_, 2, _] => " prompt=1"
+          | _, _ => ""
+        s!"res {c.id} trace={renderTrace (deliver cut r.raw)} log={renderLog r.log} attempts={r.attempts} live={maxLive r.log} evals={r.evals}{prompt}"
 
 end Ro.Driver.Drivers.Resub
